@@ -364,6 +364,10 @@ class AbstractOnlineSpecification(AbstractSpecification):
             self.online_interpreter.set_ast(self.ast)
             self.set_ast_flag = True
         self.online_interpreter.reset()
+        # a specification that is an offline monitor too: sampling_violation_counter restarts at 0
+        offline = getattr(self, 'offline_interpreter', None)
+        if isinstance(offline, DiscreteTimeInterpreter):
+            offline.sampling_violation_counter = 0
 
 
 # we would not recomend to use it
